@@ -178,7 +178,7 @@ class C08Mixin(object):
             items = list(el)
             nums = [i.isotope for i in items]
             regs = [self.ident(i) for i in items]
-            same = all(el[i.isotope] is i for i in items) and nums == list(el.isotopes)
+            same = all(el[i.isotope] is i for i in items) and nums == sorted(el.isotopes)
         return {"nums": nums, "same": same, "distinct": len(set(regs)) == len(regs)}
 
     def ev_add_isotope(self, tbl, Z, A):
@@ -242,7 +242,7 @@ class C08Mixin(object):
             chk(pickle.loads(pickle.dumps(el, 2)) is el, "pickle %s" % sym)
             isos = list(el)
             As = [i.isotope for i in isos]
-            chk(As == sorted(set(As)) and As == list(el.isotopes), "iter(%s)" % sym)
+            chk(As == sorted(set(As)) and As == sorted(el.isotopes), "iter(%s)" % sym)
             for iso in isos:
                 A = iso.isotope
                 chk(el[A] is iso, "%s[%d]" % (sym, A))
@@ -262,7 +262,7 @@ class C08Mixin(object):
                 chk(pickle.loads(pickle.dumps(ion, 2)) is ion, "pickle %s.ion[%d]" % (sym, q))
                 chk(copy.deepcopy(ion) is ion, "deepcopy %s.ion[%d]" % (sym, q))
             if isos and el.ions:
-                iso, q = isos[len(isos) // 2], el.ions[0]
+                iso, q = isos[len(isos) // 2], sorted(el.ions)[0]
                 ii = iso.ion[q]
                 chk(iso.ion[q] is ii and ii.charge == q and ii.isotope == iso.isotope, "%s isoion" % sym)
                 chk(pickle.loads(pickle.dumps(ii, 4)) is ii, "pickle isoion %s" % sym)
